@@ -256,6 +256,9 @@ func (l *lexer) scan() {
 						l.emitAtLineColumn(lin, col, tokenText, p)
 						p = 0
 					}
+					// The value of the attribute, if any, starts after the
+					// statement.
+					l.tag.index = 0
 					err := l.lexShow()
 					if err != nil {
 						l.err = err
@@ -269,6 +272,9 @@ func (l *lexer) scan() {
 						l.emitAtLineColumn(lin, col, tokenText, p)
 						p = 0
 					}
+					// The value of the attribute, if any, starts after the
+					// statement.
+					l.tag.index = 0
 					var err error
 					if len(l.src) > 2 && l.src[2] == '%' {
 						err = l.lexStatements()
@@ -290,6 +296,9 @@ func (l *lexer) scan() {
 						l.emitAtLineColumn(lin, col, tokenText, p)
 						p = 0
 					}
+					// The value of the attribute, if any, starts after the
+					// statement.
+					l.tag.index = 0
 					err := l.lexComment()
 					if err != nil {
 						l.err = err
